@@ -633,5 +633,5 @@ C11.components_stub = ["threading.RLock/Event -> dsim", "OS scheduler -> seeded 
 C11.assumptions = ["pre-emption at line boundaries of the shared-state modules, at bytecode boundaries per run knob; other modules atomic",
                    "payloads are compared with pristine renders by a second console (layout trusted, routing/ordering not)",
                    "sampled schedules: a clean batch is evidence, not proof",
-                   "known findings F6 (overlapping critical spans) and F7 (phantom frame) suppress only violations for which their predicate holds"]
+                   "known findings F6 (a failing write whose critical span overlaps another thread's write / hook push-pop / start-stop event, or lies inside another thread's open span, AND at least one of the two operations is a print/log -- every other writing operation holds the display lock from hook evaluation to write) and F7 (a print inside capture() while the hook is installed and the frame height differs from the one on screen) suppress only violations for which their predicate holds"]
 CHECK = C11()
